@@ -326,3 +326,14 @@ where
 pub fn enc_pt<G: GroupEncoding>(g: &G) -> Vec<u8> {
     g.to_bytes().as_ref().to_vec()
 }
+
+/// the tag constants the library exposes, as a trace for TLC (spec/Trace_Tags.tla)
+pub fn drive_constants<C: BlsSignatureImpl>(log: &mut Log) {
+    let g = log.group.clone();
+    let mut put = |name: &str, v: &[u8]| log.ev(json!({"ev": "Const", "group": g, "name": name, "value": String::from_utf8_lossy(v)}));
+    put("NUL", <C as BlsSignatureBasic>::DST);
+    put("AUG", <C as BlsSignatureMessageAugmentation>::DST);
+    put("POP", <C as BlsSignaturePop>::SIG_DST);
+    put("POPPROOF", <C as BlsSignaturePop>::POP_DST);
+    put("ENC", <C as BlsElGamal>::ENC_DST);
+}
